@@ -51,7 +51,8 @@ SCHEMA = {
                             'rows': LIST(OBJ('AlignmentRowComparison'))},
     'SelectedPeak': {'primaryCorrelation': OBJ('InitialAlignment', 'EmptyInitialAlignment'), 'peak': PEAK},
     'CorrelationResult': {'peaks': LIST(PEAK), 'query': OMAP, 'reference': OMAP, 'reverseStrand': BOOL,
-                          'resolution': INT, 'blur': INT},
+                          'resolution': INT, 'blur': INT, 'correlation': LIST(REAL), 'peakBaseLevel': OPT(REAL), 'correlationStart': REAL,
+                          'correlationEnd': REAL},
     'AlignmentResultRow': {'queryId': INT, 'referenceId': INT, 'queryStartPosition': REAL, 'queryEndPosition': REAL,
                            'referenceStartPosition': REAL, 'referenceEndPosition': REAL, 'reverseStrand': BOOL,
                            'confidence': REAL, 'queryLength': REAL, 'referenceLength': REAL, 'segments': LIST(SEG),
